@@ -47,7 +47,7 @@ func (op *Op) Faulted() error {
 // (a process that cannot unlink cannot release anything, no property asks for that);
 // a faulted close still closes the descriptor, as the kernel does.
 var faultable = map[string]bool{"open": true, "openfile": true, "create": true, "tempfile": true, "rename": true,
-	"write": true, "close": true, "readfile": true, "readdir": true, "stat": true, "sync": true, "writefile": true}
+	"write": true, "close": true, "readfile": true, "readat": true, "readdir": true, "stat": true, "sync": true, "writefile": true}
 
 func (op *Op) denied() bool { return op != nil && op.killed }
 
@@ -116,6 +116,8 @@ type Sched struct {
 	inMon   bool
 	// SkipTmpWrites: writes into *.reftmp table bodies are not yield points
 	SkipTmpWrites bool
+	// HookReads: ReadAt on table files is a hooked operation (fault-injection runs)
+	HookReads     bool
 	MaxSteps      int
 	Aborted       bool
 	// OnCrash is called (in scheduler context) right after a process died.
